@@ -327,12 +327,12 @@ theorem ccPixel_spec_partial (P : Params) (ncol : Nat) (dL dR : List Val) (c fla
     | num d =>
       rw [hd] at hi
       simp only [colRight, insideRight, Bool.and_eq_true, decide_eq_true_eq] at hi
-      have hmodel : ccPixel V P ncol dL dR c flag = ccInside P ncol dL dR c flag (rint ((c : ℚ) + d)) := by
+      have hmodel : ccPixel V P ncol dL dR c flag = ccInside P ncol dL dR c flag ((c : Int) + rint d) := by
         simp only [ccPixel, hv', Bool.false_eq_true, ↓reduceIte, hd, colRight, insideRight, hi.1, hi.2, decide_true,
           Bool.and_self]
       rw [hmodel]
-      apply clausesPix_of_candidate P dL dR c flag _ (rint ((c : ℚ) + d)) hv'
-      · simp only [correspondents, hd]; exact rint_mem_nearest _
+      apply clausesPix_of_candidate P dL dR c flag _ ((c : Int) + rint d) hv'
+      · simp only [correspondents, hd, List.mem_map]; exact ⟨rint d, rint_mem_nearest d, rfl⟩
       · exact ccInside_clauses P ncol dL dR c flag _ hlen hv' hi.1 hi.2
 
 
@@ -526,14 +526,14 @@ theorem ccPixel_ruleFix_spec (P : Params) (ncol : Nat) (dL dR : List Val) (c fla
     | num d =>
       rw [hd] at hout
       simp only [colRight, insideRight, Bool.and_eq_false_iff, decide_eq_false_iff_not] at hout
-      have hout' : ¬(0 ≤ rint ((c : ℚ) + d) ∧ rint ((c : ℚ) + d) < (ncol : Int)) := by
+      have hout' : ¬(0 ≤ (c : Int) + rint d ∧ (c : Int) + rint d < (ncol : Int)) := by
         rintro ⟨h0, h1⟩
         rcases hout with h | h
         · exact h h0
         · exact h h1
       obtain ⟨hnc, hcf⟩ := outside_not_consistent P ncol dL dR c .nan _ hlen hout'
-      apply clausesPix_of_candidate P dL dR c flag _ (rint ((c : ℚ) + d)) hv
-      · simp only [correspondents, hd]; exact rint_mem_nearest _
+      apply clausesPix_of_candidate P dL dR c flag _ ((c : Int) + rint d) hv
+      · simp only [correspondents, hd, List.mem_map]; exact ⟨rint d, rint_mem_nearest d, rfl⟩
       · exact flagged_clauses P ncol dL dR c flag .nan (some _) hlen hv hnc hcf
 
 /-- **C07, the whole map, repaired code: the statement holds at every cell of every map.** -/
